@@ -67,7 +67,11 @@ SerV(T, v) ==
          LET te == TagExtract(T, v)
              i == TagVariant(T, te.tag)
              body == SerV(T.vars[i], te.body) IN
-         (CASE T.lay = "int" -> body              \* the variant writes its own tag field
+         (CASE T.lay = "int" ->                   \* the variant's own form, the tag under the tag's name
+                 LET o == TagOutName(T.vars[i], T.tag) IN
+                 IF body.k = "map" /\ o # T.tag
+                 THEN [body EXCEPT !.ps = [j \in DOMAIN body.ps |-> IF body.ps[j][1] = MkStr(o) THEN <<MkStr(T.tag), body.ps[j][2]>> ELSE body.ps[j]]]
+                 ELSE body
             [] T.lay = "ext" -> MkDict(<< <<T.tags[i], body>> >>)
             [] T.lay = "adj" -> MkDict(<< <<MkStr(T.tk), T.tags[i]>>, <<MkStr(T.ck), body>> >>))
     [] T.k = "cls" ->
